@@ -1,5 +1,19 @@
 """Which contract families decide which property, and at what claimed level."""
 PROPS = {
+    'C17': {
+        'families': ['contracts.execution'],
+        'level': 'proof',
+        'technique': 'contract-based deductive verification with a ghost lifecycle monitor (typestate): VCs from the real AST, z3/cvc5',
+        'text': 'Lifecycle monitor Idle->Evolving->Done|Failed threaded through Evolver.evolve (evolving at most once and before '
+                'any task executes; normal return iff evolved after exactly one save; any exception after evolving gives exactly '
+                'one evolving_failed), pairing and payload obligations on EvolveAppTask.execute/_create_models, '
+                'MigrationExecutor._on_progress, and the evolve-lock receivers. All runs, all failure points.',
+        'level_note': 'Trusted: pyvc engine/encoding; Signal.send receivers do not raise; Django calls the migration progress '
+                      'callback in apply_start/apply_success pairs; baseline installation in Evolver.__init__ executes SQL '
+                      'outside evolve() and is not covered. Not decided: the applying_evolution payload as passed by '
+                      'EvolveAppTask.execute_tasks (call site not under contract yet).',
+        'not_decided': ['applying_evolution payload at the execute_tasks call site (evolutions= is not passed there)'],
+    },
     'C07': {
         'families': ['contracts.execution'],
         'level': 'proof',
@@ -14,7 +28,7 @@ PROPS = {
         'not_decided': ['that a retry equals an uninterrupted run needs determinism of the whole pipeline (only partly C14)'],
     },
     'C16': {
-        'families': ['contracts.routing'],
+        'families': ['contracts.routing', 'contracts.execution'],
         'level': 'proof',
         'technique': 'contract-based deductive verification: VCs generated from the real AST, discharged by z3/cvc5',
         'text': 'is_mutable against an uninterpreted router function (result true iff the routers put the model on the '
